@@ -222,3 +222,17 @@ Fixpoint tx_silent (pa : params) (op : opstate) (n : nat) (p : periph) : res (pe
       let* (p2, l) := tx_silent pa op n' p1 in
       Ok (p2, r :: l)
   end.
+
+(* ------------------------------------------------------------------ concrete states for the Examples of C07.v *)
+
+Definition c07_opts : poptions := mkOpts 4660 false false 0 0 false (Some [1; 2; 3]) (Some [17; 33]).
+(* a fresh master-side peripheral and a fresh device that fit together: 2 input bytes, 1 output byte *)
+Definition c07_periph0 : periph := periph_new 5 c07_opts [0; 0] [0] 0.
+Definition c07_slave0 : slave := slave_new 5 4660 [17; 33] 2 1.
+(* the F15 configuration: master polling diagnostics in ValidateConfig, device still in Wait_Cfg *)
+Definition f15_periph : periph := set_fcb (set_state c07_periph0 PsValidateConfig) FcbLow.
+Definition f15_slave : slave :=
+  slave_dyn c07_slave0 SlWaitCfg (Some 1) false false false false false 0 false [0] 0 None.
+
+Definition pair_states (r : res (jstate * list pevent)) : option (pstate * sl_state) :=
+  match r with Ok ((p, s), _) => Some (pe_state p, sl_st s) | _ => None end.
